@@ -273,7 +273,9 @@ def targets():      # noqa: F811
     only if the copy is faithful -- values, limits, FIXED FLAGS (both True and False, whatever the class default) and labels of
     every element, sub-circuits of containers included"""
     from . import c14
-    shared = [t for t in c14.targets() if "__copy__" in t[0] or "__deepcopy__" in t[0]]
+    # (the copy contracts use the setters through THEIR contracts -- a limit moved past the value clamps the value, fixed or not --
+    # so the keyword forms of the setters are obligations here too)
+    shared = [t for t in c14.targets() if "__copy__" in t[0] or "__deepcopy__" in t[0] or any(k in t[0] for k in ("Element.set_values[kw]", "Element.set_lower_limits[kw]", "Element.set_upper_limits[kw]", "Element.set_fixed[kw]"))]
     return _targets_before_copies() + shared
 
 
